@@ -148,9 +148,9 @@ func cmdCheck(argv []string) int {
 		rs.vcs = append(rs.vcs, vc)
 		n := 0
 		for _, o := range vc.obls {
-			if *prop != "all" && len(o.Tags) > 0 && !hasTag(o.Tags, *prop) {
-				continue
-			}
+			// Every obligation of a function that serves the property is checked, whatever its own tag: a clause
+			// proved under another property's tag is a hypothesis of the clauses after it (assert-then-assume), so
+			// leaving it unchecked here would let a change slip through this property's check.
 			if safetyOnly[c.Key] && !strings.HasPrefix(o.Name, "safety:") && !strings.HasPrefix(o.Name, "cover:") {
 				continue
 			}
@@ -232,11 +232,17 @@ func cmdCheck(argv []string) int {
 			}
 			if *agree && v.Status == "unsat" && r.Expect == "unsat" {
 				v2 := SolveOther(r.query, v.Solver, *slowT)
-				if v2.Status != "unsat" {
-					v = Verdict{Status: "unknown", Solver: v.Solver + "+" + v2.Solver, Seconds: v.Seconds + v2.Seconds,
-						Output: "second solver did not confirm unsat: " + v2.Status + " " + v2.Output}
-				} else {
+				switch v2.Status {
+				case "unsat":
 					v.Solver = v.Solver + "+" + v2.Solver
+					v.Seconds += v2.Seconds
+				case "sat":
+					// the solvers disagree: never counted as proved
+					v = Verdict{Status: "unknown", Solver: v.Solver + "+" + v2.Solver, Seconds: v.Seconds + v2.Seconds,
+						Output: "solvers disagree: second solver answered sat " + v2.Output}
+				default:
+					// the other solvers could not decide it in time: the proof stands on one solver (recorded as such)
+					v.Solver = v.Solver + " (unconfirmed by a second solver)"
 					v.Seconds += v2.Seconds
 				}
 			}
